@@ -18,6 +18,7 @@ RULE = ("every case is a complete solve(): adversarial spec families (infeasible
 ASSUMPTIONS = ["horizon 60 iterations (long-horizon slice: 400 quick / 2000 thorough)", "MA57/MUMPS/SSIDS/Cholesky and the cyipopt controllers are absent from the image",
                "deliberate errors: initial point, inverse step size, line search, derivative check (recognised by message prefix / DerivError)"]
 CASE_ALARM_S = 300
+TIMEOUT_IS_VIOLATION = "a solve with an iteration limit did not return (neither status nor error)"
 OPTS = ["plain", "rcond", "path", "display", "debug", "debug_display"]
 
 
